@@ -16,12 +16,27 @@ from ..report import Ob
 def accepted_set(ctx, funcqual, param):
     """The list in `if <param> not in [..]: raise` of a validation function."""
     f = ctx.p.func(funcqual)
+
+    def notin(t):
+        return isinstance(t, ast.Compare) and len(t.ops) == 1 and isinstance(t.ops[0], ast.NotIn) and isinstance(t.left, ast.Name) \
+            and t.left.id == param
+
+    def notnone(t):
+        return isinstance(t, ast.Compare) and len(t.ops) == 1 and isinstance(t.ops[0], (ast.IsNot, ast.NotEq)) and isinstance(t.left, ast.Name) \
+            and t.left.id == param and isinstance(t.comparators[0], ast.Constant) and t.comparators[0].value is None
+
     for n in walk_own(f.node):
-        if isinstance(n, ast.If) and isinstance(n.test, ast.Compare) and len(n.test.ops) == 1 \
-                and isinstance(n.test.ops[0], ast.NotIn) and isinstance(n.test.left, ast.Name) \
-                and n.test.left.id == param and any(isinstance(s, ast.Raise) for s in n.body):
+        if not (isinstance(n, ast.If) and any(isinstance(s, ast.Raise) for s in n.body)):
+            continue
+        t = n.test
+        extra = set()
+        if isinstance(t, ast.BoolOp) and isinstance(t.op, ast.And) and sum(1 for v in t.values if notin(v)) == 1 \
+                and all(notin(v) or notnone(v) for v in t.values):
+            extra = {None}                    # `p is not None and p not in X`: None is accepted as well
+            t = [v for v in t.values if notin(v)][0]
+        if notin(t):
             try:
-                return frozenset(ctx.p.fold(f.module, n.test.comparators[0])), n
+                return frozenset(ctx.p.fold(f.module, t.comparators[0])) | extra, n
             except Unfoldable as e:
                 raise AnalysisError("validation list in %s does not fold: %s" % (funcqual, e))
     raise AnalysisError("validation idiom `if %s not in [...]: raise` not found in %s" % (param, funcqual))
